@@ -67,6 +67,10 @@ def run(chk, replay=None):
                     break
             else:
                 t = ("U", 3)
+            if rng.random() < 0.2:
+                # nested tuples (another grouping of the same leaves is a different type)
+                t = rng.choice([("T", (("T", (("U", 3), ("U", 3))), ("U", 3))), ("T", (("T", (("U", 3), ("B",), ("U", 0))),)), ("T", (("T", (gen.UNIT, ("U", 3))), ("U", 4), ("B",))),
+                                ("O", ("T", (("T", (("U", 0), ("U", 0))), ("B",)))), ("T", (("T", (("T", (("U", 3),)), ("U", 3))), ("U", 3)))])
             n = "W%d" % j
             v = gen.gen_val(rng, t)
             decl.append((n, t))
